@@ -110,3 +110,24 @@ def diff_entries(obs, exp, limit=8):
         return [["shape", list(obs.shape), list(exp.shape)]]
     idx = np.argwhere(obs != exp)
     return [[list(map(int, i)), float(obs[tuple(i)]), float(exp[tuple(i)])] for i in idx[:limit]]
+
+
+FORMS = ("string", "pywt.Wavelet", "custom pywt.Wavelet(filter_bank)", "tuple of arrays", "tuple of lists")
+
+
+def wave_form(name, k, synthesis=False):
+    """the `wave` argument of a DWT module for the wavelet `name` in the k-th accepted form (the constructors take a
+    different path for each) -> (argument, label)"""
+    import pywt
+    w = pywt.Wavelet(name)
+    form = FORMS[k % len(FORMS)]
+    if form == "string":
+        return name, form
+    if form == "pywt.Wavelet":
+        return w, form
+    if form == "custom pywt.Wavelet(filter_bank)":
+        return pywt.Wavelet("custom_" + name.replace(".", "_"), filter_bank=w.filter_bank), form
+    lo, hi = (w.rec_lo, w.rec_hi) if synthesis else (w.dec_lo, w.dec_hi)
+    if form == "tuple of arrays":
+        return (np.array(lo), np.array(hi)), form
+    return (list(lo), list(hi)), form
